@@ -212,7 +212,16 @@ class DocsLeg(object):
                 bad = cmp(db3.directives, "db.directives (reopened after update())")
                 if bad:
                     return bad
+                # a later update from a file that has a directive of its own: the import's directives stay (first, in order)
+                db3.update(ctx.write("upd.gff", "##update-directive 7\nchrU\tsrc\tgene\t3\t9\t.\t+\t.\tID=later2\n"), make_backup=False)
                 db3.conn.close()
+                db4 = gffutils.FeatureDB(dbfn)
+                have = list(db4.directives)
+                db4.conn.close()
+                bad = cmp(have[:len(have) - 1] if have and have[-1] == "update-directive 7" else have,
+                          "db.directives (reopened after an update() from a file with a directive of its own)")
+                if bad:
+                    return bad
         return None
 
 
